@@ -20,7 +20,8 @@ func init() {
 	register(&RuleSet{
 		ID:      "C07",
 		Arch386: true,
-		Explanation: "Closure V = repo functions reachable from the relying-party entry points (verify.Endorsement[Proto], the SNP validator closures, extract.Attestation / Endorsement, extractsev.From*, SevPolicy, TdxPolicy, SevValidate, TdxValidate, Inspect*, MaskOptions.Mask, CryptoAgileLog.Unmarshal, SP800155Event3.UnmarshalFromBytes, exel.Locate). " +
+		Explanation: "T17 (= C09.R1/R4) the verification closure writes no state that outlives the call, so the outcome for an input does not depend on earlier inputs. " +
+			"Closure V = repo functions reachable from the relying-party entry points (verify.Endorsement[Proto], the SNP validator closures, extract.Attestation / Endorsement, extractsev.From*, SevPolicy, TdxPolicy, SevValidate, TdxValidate, Inspect*, MaskOptions.Mask, CryptoAgileLog.Unmarshal, SP800155Event3.UnmarshalFromBytes, exel.Locate). " +
 			"T1 nil-unsafe dereference: a pointer to a generated message obtained from a getter or a message field (possibly nil after unmarshalling untrusted bytes) reaches a direct field access only behind a != nil edge for the same access path (parameters are resolved at the call sites in V). " +
 			"T2 allocation proportional to input: make / Grow / strings.Repeat whose size derives from a decoded integer (target of binary.Read — also through the repo's read helpers — or a binary UintN result) must be dominated by an ordering comparison of that value with a constant or a length; sizes looked up in a package-level table of constants are bounded. " +
 			"T3 every Read call in V's packages has its count checked. T4 every function of V with constant offsets into a []byte parameter has a sufficient length guard (layout extraction). " +
@@ -82,6 +83,10 @@ func c07Roots(c *Ctx) []*ssa.Function {
 }
 
 func runC07(c *Ctx) {
+	// T17 = C09.R1/R4: the relying-party decoders keep no state between calls. A decoder that remembers something
+	// about an earlier input (a parse cache keyed by peer-chosen bytes) can answer the second presentation of a
+	// malformed input differently from the first — "refused" the first time, a nil dereference the second.
+	c.borrow("T17/C09.", runC09, func(rule, _ string) bool { return rule == "R1" || rule == "R4" })
 	roots := c07Roots(c)
 	if !c.S.Floor("T0", "relying-party entry points resolved", 18, len(roots)) {
 		return
@@ -159,7 +164,8 @@ func runC07(c *Ctx) {
 				continue
 			}
 			ei := errIndex(first.Call.Signature())
-			reads := false
+			// the call is itself a primitive read of the standard library, or reaches one
+			reads := calleeIs(first, "encoding/binary.Read") || isReaderRead(first) || calleeIs(first, "io.ReadFull") || calleeIs(first, "io.ReadAtLeast")
 			for _, cal := range c.P.Callees(first) {
 				for g := range c.reachable([]*ssa.Function{cal}, nil) {
 					if len(callsIn(g, func(cc ssa.CallInstruction) bool {
